@@ -85,6 +85,8 @@ def run(scn, stats):
                 if not rec["rejected"]:
                     q.special.add("after-rerun")
                     r.finish(stop=stop)
+            except Violation as v:
+                raise common.enrich(v, [fo])
             except provider.KnownTrigger as k:
                 stats.excluded[k.fid] += 1
             except provider.EngineException as e:
